@@ -114,7 +114,7 @@ class C20(flow.Spec):
         jobs = [(fn, ty) for fn in ONE for ty in ("u32", "i32") if exists(fn, ty)]
         k = ctx.seed % len(jobs)
         jobs = jobs[k:] + jobs[:k]
-        budget = float(os.environ.get("VERIF_C20_FULL32_BUDGET", "600"))
+        budget = float(os.environ.get("VERIF_C20_FULL32_BUDGET", "420"))
         t0 = time.time()
         done, nviol = [], 0
         for fn, ty in jobs:
